@@ -181,15 +181,13 @@ func checkStrPositions(c *core.Ctx, s string, b []byte, desc string) {
 func init() {
 	core.Register(&core.Prop{
 		ID: "C09", Level: "model_checking",
-		Rule:        "Exhaustive enumeration: every string length 0..3*2048+40 for each content class (ASCII, 2-, 3-, 4-byte code points; quick: ASCII and 3-byte), ASCII strings with one wide code point (2-,3-,4-byte) at every offset in [b-3,b+3] around every internal chunk boundary b; every binary length 0..3*4096+40 for four content patterns; and 18 boundary lengths at every position (struct field, first/middle/last list element, map key, map value, [][]byte element). Each case: real ToBytes, R1 parse (length prefixes count characters / octets, no chunk ends inside a code point), real ToObject, exact content equality. Distinct by construction.",
+		Rule:        "Exhaustive enumeration: every string length 0..3*2048+40 for each content class (ASCII, 2-, 3-, 4-byte code points; both tiers: all four), ASCII strings with one wide code point (2-,3-,4-byte) at every offset in [b-3,b+3] around every internal chunk boundary b; every binary length 0..3*4096+40 for four content patterns; and 18 boundary lengths at every position (struct field, first/middle/last list element, map key, map value, [][]byte element). Each case: real ToBytes, R1 parse (length prefixes count characters / octets, no chunk ends inside a code point), real ToObject, exact content equality. Distinct by construction.",
 		Assumptions: []string{"contents are a handful of classes per length, not all contents"},
 		Units: func(tier string) []core.Unit {
 			var us []core.Unit
 			maxS := 3*strChunk + 40
 			for ci, cl := range strClasses {
-				if tier != "thorough" && (ci == 1 || ci == 3) {
-					continue
-				}
+				_ = ci
 				cl := cl
 				for part := 0; part < 4; part++ {
 					part := part
@@ -210,9 +208,7 @@ func init() {
 			us = append(us, core.Unit{Name: "str-boundary-mixed", Cost: 30, Run: func(c *core.Ctx) {
 				wides := []string{"é", "中", "😀"}
 				bounds := []int{strChunk, 2 * strChunk, 3 * strChunk}
-				if tier != "thorough" {
-					bounds = bounds[:1]
-				}
+				_ = tier
 				for _, b := range bounds {
 					for off := -3; off <= 3; off++ {
 						for _, w := range wides {
@@ -246,9 +242,7 @@ func init() {
 				f    func(i int) byte
 			}{{"zero", func(int) byte { return 0 }}, {"ff", func(int) byte { return 0xff }}, {"count", func(i int) byte { return byte(i) }}, {"taglike", func(i int) byte { return "bBZNA"[i%5] }}}
 			for pi, p := range pats {
-				if tier != "thorough" && pi%2 == 1 {
-					continue
-				}
+				_ = pi
 				p := p
 				for part := 0; part < 4; part++ {
 					part := part
